@@ -123,7 +123,7 @@ reg(["C04", "C06", "C07", "C01"], H("s9::s_v9_data_dispatch", unwind=9, timeout=
     desc="v9::FlowSet::parse, data id 300 vs symbolic template/options-template ids: dispatch order, consumption, unknown id => Err, caches unchanged",
     bounds={"body_bytes": "<=7", "cached": "1 template + 1 options template, symbolic ids"}, assumptions=[_D9]))
 for sfx, what in (("t", "template id 0, length 11"), ("t_max", "template id 0, length 65535"), ("o", "options-template id 1, length 13"), ("d", "data id 300, length 11"), ("d_max", "data id 300, length 65535")):
-    reg(["C14", "C06"], H("s9::s_v9_truncated_" + sfx, unwind=5, timeout=900, mem_gb=8,
+    reg(["C14", "C06"], H("s9::s_v9_truncated_" + sfx, unwind=9, timeout=900, mem_gb=8,
         desc="v9::FlowSet::parse with declared length > available bytes (%s): Err, caches unchanged" % what,
         bounds={"available": 10, "declared_length": "written"}, assumptions=[_D9]))
 
@@ -345,21 +345,54 @@ for _nm, _w, _tier in (("v5_entry_1", "V5 count 1 + 3 trailing bytes", "quick"),
 # ---------------------------------------------------------------- C15: allocation for bytes not present
 _ACCT = "the Rust global allocator is Kani's model (kani_lib.c: malloc per request, never fails) extended with three counters (vlib/kani_lib_acct.c): bytes requested, number of requests, largest request; deallocation is not credited"
 for _nm, _d, _b in (
-    ("c15_v5_count", "V5Parser::parse, header.count symbolic (all 65536 values) over a buffer holding no complete record", {"bytes": 27}),
-    ("c15_v7_count", "V7Parser::parse, header.count symbolic over a buffer holding no complete record", {"bytes": 27}),
-    ("c15_v9_count", "V9Parser::parse, header.count symbolic, 3 stray bytes: no pre-allocation by count at all", {"bytes": 21}),
-    ("c15_v9_template_field_count", "v9::FlowSet::parse, template record announcing any field count over an 8-byte body", {"bytes": 12}),
-    ("c15_v9_options_template_lengths", "v9::FlowSet::parse, options template announcing any scope/option lengths over a 10-byte body", {"bytes": 14}),
-    ("c15_v9_flowset_length", "v9::FlowSet::parse, flowset (id 0/1/300) announcing any length beyond the 6 bytes present: nothing allocated", {"bytes": 6}),
-    ("c15_ipfix_length", "IPFixParser::parse, message announcing any length beyond the buffer: only the error copies", {"bytes": 18}),
-    ("c15_ipfix_template_field_count", "ipfix::FlowSet::parse, template record announcing any field count over an 8-byte body", {"bytes": 12}),
-    ("c15_ipfix_options_template_counts", "ipfix::FlowSet::parse, options template announcing any field/scope counts over a 10-byte body", {"bytes": 14}),
+    ("c15_v5_count", "V5Parser::parse, header.count symbolic (all 65536 values) over a buffer holding no complete record", {"bytes": 27, "count": "every 16-bit value"}),
+    ("c15_v7_count", "V7Parser::parse, header.count symbolic over a buffer holding no complete record", {"bytes": 27, "count": "every 16-bit value"}),
+    ("c15_v9_template_field_count_max", "v9::FlowSet::parse, template record announcing 65535 fields over an 8-byte body", {"bytes": 12}),
+    ("c15_v9_template_field_count_4097", "v9::FlowSet::parse, template record announcing 4097 fields over an 8-byte body", {"bytes": 12}),
+    ("c15_v9_options_template_lengths_max", "v9::FlowSet::parse, options template announcing scope/option lengths 65535/65535 over a 10-byte body", {"bytes": 14}),
+    ("c15_v9_options_template_lengths_4_max", "v9::FlowSet::parse, options template announcing scope/option lengths 4/65535 over a 10-byte body", {"bytes": 14}),
+    ("c15_v9_flowset_length_t", "v9::FlowSet::parse, template flowset announcing length 65535 with 6 bytes present: nothing allocated", {"bytes": 6}),
+    ("c15_v9_flowset_length_o", "v9::FlowSet::parse, options-template flowset announcing length 65535 with 6 bytes present: nothing allocated", {"bytes": 6}),
+    ("c15_v9_flowset_length_d", "v9::FlowSet::parse, data flowset announcing length 65535 with 6 bytes present: nothing allocated", {"bytes": 6}),
+    ("c15_ipfix_length", "IPFixParser::parse, message announcing length 65535 over 20 bytes: only the error copies", {"bytes": 18}),
+    ("c15_ipfix_template_field_count_max", "ipfix::FlowSet::parse, template record announcing 65535 fields over an 8-byte body", {"bytes": 12}),
+    ("c15_ipfix_template_field_count_1", "ipfix::FlowSet::parse, template record announcing 1 field, 8-byte body (accepted)", {"bytes": 12}),
+    ("c15_ipfix_options_template_counts_max", "ipfix::FlowSet::parse, options template announcing field/scope counts 65535/65535 over a 10-byte body", {"bytes": 14}),
+    ("c15_ipfix_options_template_counts_max_1", "ipfix::FlowSet::parse, options template announcing field/scope counts 65535/1 over a 10-byte body", {"bytes": 14}),
     ("c15_kernel_vec", "FieldValue::from_field_type(Vec): any declared length over <= 5 available bytes", {"available": "0..=5", "declared": "all 65536"}),
     ("c15_kernel_string", "FieldValue::from_field_type(String): any declared length over <= 5 available bytes", {"available": "0..=5", "declared": "all 65536"}),
 ):
-    reg(["C15"], H("c15::" + _nm, unwind=3, timeout=900, mem_gb=12, acct=True,
+    reg(["C15"], H("c15::" + _nm, tier="thorough" if _nm == "c15_kernel_string" else "quick", unwind=8 if "kernel" in _nm else 3, loops=[(r"many0::<&\[u8\], u8", 12)], timeout=600, mem_gb=12, acct=True,
         desc=_d + ": largest single heap request <= 64 KiB (nom's pre-allocation cap) and total requested <= 64 KiB + 8 x bytes present + 512; every loop exits within the unwinding bound (no work per announced-but-absent element)",
-        bounds=dict(_b, counts_and_lengths="every 16-bit value"), assumptions=[_ACCT]))
+        bounds=dict(_b), assumptions=[_ACCT]))
+
+
+# ---------------------------------------------------------------- H: public-API histories (structure written, payload symbolic)
+_HL = [(r"nfv\d*h|h::", 24), (r"many0::<&\[u8\], u8", 6), (r"verif_shim", 6), (r"extend|IntoIter|into_iter|from_iter", 8), (r"drop_glue|drop_in_place", 8)]
+_HB = {"structure": "written (versions, counts, set ids/lengths, template ids, field specifiers, length prefixes)", "symbolic": "header words, enterprise numbers, data bytes, padding"}
+for _nm, _props, _d in (
+    ("h_ipfix_template_twice_padding_reexport", ["C10", "C05"], "IPFIX: same template id announced twice with different trailing padding: each message reported as sent and to_be_bytes returns exactly its own bytes"),
+    ("h_ipfix_set_beyond_message", ["C11", "C05", "C06", "C14"], "IPFIX: last set announces a length beyond the message: never completed with the next message's bytes; chained == per-call, same cache"),
+):
+    reg(_props, H("h::" + _nm, unwind=4, loops=_HL, timeout=1500, mem_gb=24, tier="thorough", fs=4096,
+        desc="history through parse_bytes with the real decoders: " + _d, bounds=dict(_HB)))
+
+
+# ---------------------------------------------------------------- S/T against a cached entry of the same shape
+reg(["C04", "C06", "C09", "C01"], H("s9::s_v9_template_2f_c2", unwind=5, loops=[(r"many0::<&\[u8\], u8", 9), (r"nfv2s9", 8)], timeout=1800, mem_gb=30,
+    desc="v9::FlowSet::parse, template flowset [1 record x 2 fields] vs a cached template with TWO symbolic fields (may share id, types, total size with the incoming one): record as sent, cache = latest definition, other id untouched",
+    bounds={"shape": "1 record x 2 fields (written)", "symbolic": "ids, field types/lengths, cached 2-field entry, probe id"}))
+reg(["C04", "C06", "C01"], H("s9::s_v9_options_template_1_1_c", unwind=5, timeout=1800, mem_gb=30,
+    desc="v9::FlowSet::parse, options-template flowset [1 scope + 1 option field] vs a cached options template of the same shape with symbolic id/fields: latest definition cached, other id untouched",
+    bounds={"shape": "1 scope + 1 option field (written)", "symbolic": "ids, field types/lengths, cached entry"}))
+for _nm, _shape in (("2p_c2", "2 plain specifiers vs cached 2-field template with 2 padding bytes"), ("1p_c1pad", "1 plain specifier, no padding, vs cached 1-field template with 2 padding bytes")):
+    reg(["C05", "C06", "C10", "C01"], H("s10::s_ipfix_template_" + _nm, unwind=4, timeout=1500, mem_gb=30,
+        desc="ipfix::FlowSet::parse, template set [%s] (cached entry may coincide with the incoming record in id and fields, padding differs): record reported as sent (own padding, own field_count), cache = latest definition" % _shape,
+        bounds={"shape": _shape + " (written)", "symbolic": "template id, ie ids, field lengths, cached entry incl. padding"}))
+for _nm, _shape in (("2_1_c1", "2 specifiers vs cached 1-field options template (redefinition by appending)"), ("1_1_c2", "1 specifier vs cached 2-field options template (redefinition by dropping)"), ("2_1_c2", "2 specifiers vs cached 2-field options template")):
+    reg(["C05", "C06", "C01"], H("s10::s_ipfix_options_template_" + _nm, unwind=5, timeout=1500, mem_gb=30,
+        desc="ipfix::FlowSet::parse, options-template set [%s]: record as sent, cache = latest definition whatever the cached one looks like, other id untouched" % _shape,
+        bounds={"shape": _shape + " (written)", "symbolic": "template ids, scope counts, ie ids, field lengths, cached entry"}))
 
 
 def all_harnesses():
